@@ -24,8 +24,8 @@ static data_decoder_t decoders[] = { mpt_decode_cobs, mpt_decode_cobs_r, mpt_dec
 
 // ---------------------------------------------------------------- message families
 static const unsigned NQ[] = {0, 1, 2, 31, 32, 222, 223, 224, 254, 255};
-static const unsigned NT[] = {0, 1, 2, 29, 30, 31, 32, 33, 61, 62, 63, 64, 65, 66, 189, 190, 191, 192, 193, 194, 221, 222, 223, 224, 225, 252, 253, 254, 255, 256, 507, 508, 509};
-static const unsigned N3[] = {0, 1, 31, 222, 223, 254};
+static const unsigned NT[] = {0, 1, 2, 30, 31, 32, 62, 63, 64, 65, 190, 191, 192, 193, 221, 222, 223, 224, 253, 254, 255, 256, 508, 509};
+static const unsigned N3[] = {0, 1, 31, 223, 254};
 static const uint8_t V[] = {0x01, 0x20, 0xE0, 0xFF, 0x02, 0x1F, 0xDE, 0xDF, 0xE1, 0xFE};   // quick tier uses the first four
 static const uint8_t A[] = {0x00, 0x01, 0x02, 0x1F, 0xE0, 0xFF};
 
@@ -241,8 +241,8 @@ static bool parse_job(const std::string &job, Tier t, int &f, int &mode, Family 
 	int fk, first;
 	if (sscanf(job.c_str(), "%d:%d:%d:%d", &f, &mode, &fk, &first) != 4) return false;
 	fam.kind = fk == 9 ? 1 : 0; fam.first = first; fam.L = t == Quick ? 4 : 5; fam.nv = t == Quick ? 4 : sizeof V;
-	if (fk == 2) { fam.n.assign(NQ, NQ + sizeof NQ / sizeof *NQ); if (t == Thorough) fam.n.assign(NT, NT + sizeof NT / sizeof *NT); fam.zmax = t == Quick ? 2 : 3; fam.runs = 2; }
-	else if (fk == 3) { fam.n.assign(N3, N3 + sizeof N3 / sizeof *N3); fam.zmax = 2; fam.runs = 3; }
+	if (fk == 2) { fam.n.assign(NQ, NQ + sizeof NQ / sizeof *NQ); if (t == Thorough) fam.n.assign(NT, NT + sizeof NT / sizeof *NT); fam.zmax = 2; fam.runs = 2; }
+	else if (fk == 3) { fam.n.assign(N3, N3 + sizeof N3 / sizeof *N3); fam.zmax = 2; fam.runs = 3; fam.nv = 4; }
 	return true;
 }
 void mc_jobs(Tier t, std::vector<std::string> &jobs)
